@@ -105,6 +105,7 @@ class _LemmaHelper:
         return [f for f in self.spec.folds if f.sort == sort]
 
     track = Engine.track
+    track_deep = Engine.track_deep
     note_concat = Engine.note_concat
 
     def fresh(self, sort, base, st=None):
@@ -154,6 +155,52 @@ def native_checks(spec, prop, tier, seed):
     return json.loads(lines[-1])
 
 
+def explain(o):
+    print("==== " + o.name, "|", o.info or "")
+    s = z3.Solver()
+    s.set("timeout", 20000)
+    for p in o.pc:
+        s.add(p)
+    s.add(z3.Not(o.goal))
+    if s.check() != z3.sat:
+        print("  (no model in process)")
+        return
+    m = s.model()
+
+    def conj(t, depth=0):
+        if z3.is_and(t) and depth < 4:
+            for ch in t.children():
+                conj(ch, depth + 1)
+            return
+        v = m.eval(t, model_completion=True)
+        if not z3.is_true(v):
+            txt = str(t).replace("\n", " ")
+            print("  FAILS:", txt[:400])
+            subs = {}
+            for sub in _subterms(t):
+                if sub.sort().kind() in (z3.Z3_INT_SORT, z3.Z3_BOOL_SORT) and sub.num_args() > 0 and len(str(sub)) < 80:
+                    subs[str(sub).replace("\n", " ")] = m.eval(sub, model_completion=True)
+            for k, vv in list(subs.items())[:40]:
+                print("       ", k, "=", vv)
+    conj(o.goal)
+    for d in m.decls():
+        if d.arity() == 0 and "!" in d.name() and not d.name().startswith(("pre!", "post!", "q!")):
+            val = str(m[d]).replace("\n", " ")
+            if len(val) < 200:
+                print("   ", d.name(), "=", val)
+
+
+def _subterms(t, seen=None):
+    seen = seen if seen is not None else set()
+    if t.get_id() in seen:
+        return
+    seen.add(t.get_id())
+    yield t
+    if z3.is_app(t):
+        for ch in t.children():
+            yield from _subterms(ch, seen)
+
+
 def main(argv=None):
     ap = argparse.ArgumentParser()
     ap.add_argument("prop")
@@ -161,6 +208,7 @@ def main(argv=None):
     ap.add_argument("--replay")
     ap.add_argument("--no-mutants", action="store_true")
     ap.add_argument("--verbose", "-v", action="store_true")
+    ap.add_argument("--explain", help="for failed obligations matching this regex, show which conjunct fails")
     ap.add_argument("--dump", help="write SMT-LIB of obligations matching this regex to stdout")
     a = ap.parse_args(argv)
     prop, tier = a.prop, a.tier
@@ -208,6 +256,11 @@ def main(argv=None):
         if r["result"] == "unsat":
             by_backend[r["backend"]] = by_backend.get(r["backend"], 0) + 1
     failed = [(o, r) for o, r in proof if r["result"] == "sat"]
+    if a.explain:
+        for o, r in failed:
+            if re.search(a.explain, o.name):
+                explain(o)
+        return 0
     unknown = [(o, r) for o, r in proof if r["result"] not in ("sat", "unsat")]
     faults = []
     if not proof:
